@@ -41,6 +41,7 @@ import (
 var (
 	powerUnit = sdkmath.NewInt(1).MulRaw(1e18).MulRaw(100) // 100 FX = sdk.DefaultPowerReduction in fxcore
 	payKey    = []byte("verif/shares/pay")                 // observation register in the branch's transient store
+	refKey    = "verif/shares/ref/"                        // + validator: reference rewards after every reward block of this branch
 	// phi = 0.111111111111111111: the fraction of a share one base token buys on a validator slashed by 10%
 	phiInt = sdkmath.NewIntFromUint64(111111111111111111)
 	e18    = sdkmath.NewInt(1).MulRaw(1e18)
@@ -78,6 +79,9 @@ type Adapter struct {
 	// the block header's height and time: byte-identical inputs give identical results.
 	obsKeys []storetypes.StoreKey
 	memo    map[[32]byte][2]string
+	// ref0[v]: rewards owed to the reference delegation of v (the validator's genesis self-delegation, which no
+	// modelled operation touches) when the world was handed over, i.e. before the first modelled reward block
+	ref0 map[string]sdkmath.LegacyDec
 }
 
 func (a *Adapter) key(d string) *helpers.Signer { return a.W.Key("shares/" + d) }
@@ -166,8 +170,62 @@ func New(t *testing.T, c Consts) *Adapter {
 			}
 		}
 	}
+	a.ref0 = map[string]sdkmath.LegacyDec{}
+	for _, v := range c.Validator {
+		o, ok := a.owedAcc(ctx, sdk.AccAddress(a.val[v]), v)
+		if !ok {
+			t.Fatalf("reference rewards of %s uncomputable", v)
+		}
+		a.ref0[v] = o
+	}
 	w.Ctx = ctx
 	return a
+}
+
+// refHist returns the rewards owed to the reference delegation of v at hand-over and after each reward block
+// of this branch (L[0..T]); the reference is never paid, so L[T]-L[T-j] is what its (constant) shares a.self[v]
+// earned in the last j reward blocks.
+func (a *Adapter) refHist(ctx sdk.Context, v string) []sdkmath.LegacyDec {
+	out := []sdkmath.LegacyDec{a.ref0[v]}
+	if bz := ctx.KVStore(a.tkey).Get([]byte(refKey + v)); len(bz) > 0 {
+		for _, x := range strings.Split(string(bz), ",") {
+			out = append(out, sdkmath.LegacyMustNewDecFromStr(x))
+		}
+	}
+	return out
+}
+
+func (a *Adapter) pushRef(ctx sdk.Context, v string, x sdkmath.LegacyDec) {
+	st := ctx.KVStore(a.tkey)
+	if bz := st.Get([]byte(refKey + v)); len(bz) > 0 {
+		st.Set([]byte(refKey+v), []byte(string(bz)+","+x.String()))
+	} else {
+		st.Set([]byte(refKey+v), []byte(x.String()))
+	}
+}
+
+// blocksEarned expresses the rewards `owed` to a delegation of `shares` at v as the number j of most recent
+// reward blocks for which   owed = shares * (rewards one share of v earned in those j blocks),
+// the latter measured on the reference delegation; -1 when there is no such j (tolerance: 1e-9 relative +
+// 1e-16 base units for the distribution module's truncations).
+func (a *Adapter) blocksEarned(ctx sdk.Context, v string, shares, owed sdkmath.LegacyDec) int64 {
+	hist := a.refHist(ctx, v)
+	T := len(hist) - 1
+	for j := 0; j <= T; j++ {
+		exp := shares.Mul(hist[T].Sub(hist[T-j])).Quo(a.self[v])
+		tol := exp.Abs().QuoInt64(1_000_000_000).Add(sdkmath.LegacyNewDecWithPrec(1, 16))
+		if owed.Sub(exp).Abs().LTE(tol) {
+			return int64(j)
+		}
+	}
+	if a.debug {
+		var exps []string
+		for j := 0; j <= T; j++ {
+			exps = append(exps, shares.Mul(hist[T].Sub(hist[T-j])).Quo(a.self[v]).String())
+		}
+		fmt.Printf("DEBUG rewards at %s: owed %s on %s shares is none of %v\n", v, owed, shares, exps)
+	}
+	return -1
 }
 
 // call executes one EVM transaction to the staking precompile signed by d.  Like baseapp.runTx it runs in a
@@ -202,18 +260,22 @@ func (a *Adapter) getPay(ctx sdk.Context) string {
 // owed returns the rewards (staking denom) the distribution module computes for (d, v) now; ok=false when
 // the computation itself fails (panics) on this state.
 func (a *Adapter) owed(ctx sdk.Context, d, v string) (amt sdkmath.LegacyDec, ok bool) {
+	return a.owedAcc(ctx, a.acc(d), v)
+}
+
+func (a *Adapter) owedAcc(ctx sdk.Context, acc sdk.AccAddress, v string) (amt sdkmath.LegacyDec, ok bool) {
 	amt = sdkmath.LegacyZeroDec()
 	defer func() {
 		if r := recover(); r != nil {
 			ok = false
 		}
 	}()
-	if _, err := a.W.App.StakingKeeper.GetDelegation(ctx, a.acc(d), a.val[v]); err != nil {
+	if _, err := a.W.App.StakingKeeper.GetDelegation(ctx, acc, a.val[v]); err != nil {
 		return amt, true
 	}
 	cctx, _ := ctx.CacheContext()
 	res, err := distrkeeper.NewQuerier(a.W.App.DistrKeeper).DelegationRewards(cctx, &distrtypes.QueryDelegationRewardsRequest{
-		DelegatorAddress: a.acc(d).String(), ValidatorAddress: a.val[v].String(),
+		DelegatorAddress: acc.String(), ValidatorAddress: a.val[v].String(),
 	})
 	if err != nil {
 		return amt, false
@@ -311,6 +373,14 @@ func (a *Adapter) Apply(ctx sdk.Context, op graph.Op) (sdk.Context, string) {
 			panic(fmt.Sprintf("BeginBlocker: %v", err))
 		}
 		a.setPay(nctx, "ok")
+		// what the reference delegation of every validator is owed after this block
+		for _, rv := range a.C.Validator {
+			o, computable := a.owedAcc(nctx, sdk.AccAddress(a.val[rv]), rv)
+			if !computable {
+				panic("reference rewards of " + rv + " uncomputable")
+			}
+			a.pushRef(nctx, rv, o)
+		}
 		return nctx, "ok"
 	case "Slash":
 		// the next block begins with evidence against v: 50% of its current power is slashed (at most once per
@@ -380,7 +450,7 @@ func (a *Adapter) Project(ctx sdk.Context) any {
 			inexact = append(inexact, fmt.Sprintf(f, args...))
 		}
 	}
-	shares, accrued, recv, ubd := map[string]map[string]int64{}, map[string]map[string]bool{}, map[string]map[string]bool{}, map[string]map[string]int64{}
+	shares, accrued, recv, ubd := map[string]map[string]int64{}, map[string]map[string]int64{}, map[string]map[string]bool{}, map[string]map[string]int64{}
 	frac, valFrac, fden := map[string]map[string]int64{}, map[string]int64{}, map[string]int64{}
 	valShares, valTokens, den := map[string]int64{}, map[string]int64{}, map[string]int64{}
 	allow := map[string]map[string]map[string]int64{}
@@ -391,18 +461,25 @@ func (a *Adapter) Project(ctx sdk.Context) any {
 	octx, _ := ctx.CacheContext()
 	octx = octx.WithBlockHeight(ctx.BlockHeight() + 1).WithBlockTime(ctx.BlockTime().Add(5 * time.Second))
 	for _, d := range a.C.Delegator {
-		shares[d], accrued[d], recv[d], ubd[d] = map[string]int64{}, map[string]bool{}, map[string]bool{}, map[string]int64{}
+		shares[d], accrued[d], recv[d], ubd[d] = map[string]int64{}, map[string]int64{}, map[string]bool{}, map[string]int64{}
 		frac[d] = map[string]int64{}
 		for _, v := range a.C.Validator {
 			var ok bool
 			shares[d][v], frac[d][v] = 0, 0
+			held := sdkmath.LegacyZeroDec()
 			if del, err := sk.GetDelegation(ctx, a.acc(d), a.val[v]); err == nil {
+				held = del.Shares
 				shares[d][v], frac[d][v], ok = a.split(del.Shares)
 				note(ok, "shares %s %s %s", d, v, del.Shares)
 			}
+			// reward entitlement: the number of reward blocks whose rewards, earned on the shares held now, make up
+			// what the distribution module owes (-1: no whole number of blocks does)
 			o, computable := a.owed(octx, d, v)
 			note(computable, "rewards %s %s uncomputable", d, v)
-			accrued[d][v] = o.IsPositive()
+			accrued[d][v] = -1
+			if computable {
+				accrued[d][v] = a.blocksEarned(ctx, v, held, o)
+			}
 			has, err := sk.HasReceivingRedelegation(ctx, a.acc(d), a.val[v])
 			must(err)
 			recv[d][v] = has
